@@ -595,6 +595,16 @@ func (c *Ctx) callContract(pi *PkgInfo, fo *types.Func, ct *Contract, recv *Val,
 		cf.Results[i] = c.freshVal(fmt.Sprintf("r$%s", fo.Name()), rt, cf.Ints, cf.Floats)
 	}
 	cf.InEnsures = true
+	// ghost variables of the callee are internal: from outside, the postconditions hold for some value of them
+	for _, g := range ct.GhostVars {
+		if _, have := cf.Ghost[g.Name]; !have {
+			v, ts := c.bindVar(SBinder{g.Name, g.Type}, "e")
+			for _, t := range ts {
+				c.declare(t.S, t.Sort)
+			}
+			cf.Ghost[g.Name] = v
+		}
+	}
 	for _, e := range ct.Ensures {
 		c.assume(c.evalSpecBool(e.E))
 	}
